@@ -1,1 +1,129 @@
+(* C17_Spec.v — the declarative side of C17, written from the property text:
+   what the wire must carry for a raw body, what reaches the inner response writer for a
+   history of handler actions and raw-response choices, and which values a header list denotes.
+   None of this mentions the two branches of the stream encoder, the rawResponseWriter's
+   fields or the order of the statements in finish(). *)
 From V Require Export C17_Model.
+Open Scope N_scope.
+
+(* ---------- bodies ---------- *)
+Section BodySpec.
+  Variable compress : N -> bytes -> bytes.
+  Variable decompress : N -> bytes -> option bytes.
+
+  (* the compressor library behaves: the only thing asked of it *)
+  Definition codec_ok : Prop := forall c d, decompress c (compress c d) = Some d.
+
+  (* a message is well-formed when its compression is one of the seven enum values
+     (only looked at when there is data to compress) *)
+  Definition contents_ok (oc : option contents) : Prop :=
+    match oc with
+    | Some c => match data_bytes (c_data c) with Some _ => comp_known (c_comp c) = true | None => True end
+    | None => True
+    end.
+  (* the data a message stands for, and the bytes that represent it on the wire *)
+  Definition data_of (oc : option contents) : bytes :=
+    match oc with
+    | Some c => match data_bytes (c_data c) with Some d => d | None => [] end
+    | None => []
+    end.
+  Definition payload_of (oc : option contents) : bytes :=
+    match oc with
+    | Some c => match data_bytes (c_data c) with Some d => compress_with compress (c_comp c) d | None => [] end
+    | None => []
+    end.
+
+  Definition item_ok (it : item) : Prop := i_flags it <= 255 /\ contents_ok (i_payload it).
+  (* the value of the 4-byte length field: the explicit one if given, else the payload's size *)
+  Definition declared (it : item) : N :=
+    match i_len it with
+    | Some n => n
+    | None => N.of_nat (length (payload_of (i_payload it))) mod 4294967296
+    end.
+  (* one enveloped item: flags byte, big-endian length, payload *)
+  Definition frame (it : item) : bytes := i_flags it :: be32 (declared it) ++ payload_of (i_payload it).
+  Definition wire (items : list item) : bytes := concat (map frame items).
+
+  (* the length field tells the truth *)
+  Definition honest (it : item) : Prop :=
+    N.of_nat (length (payload_of (i_payload it))) < 4294967296 /\
+    match i_len it with Some n => n = N.of_nat (length (payload_of (i_payload it))) | None => True end.
+End BodySpec.
+
+(* ---------- header lists ---------- *)
+(* the values a header list gives to the (canonical) name k, in order of appearance *)
+Definition values_of (k : bytes) (hs : list header) : list bytes :=
+  flat_map (fun hd => if bytes_eqb k (canon (h_name hd)) then h_vals hd else []) hs.
+(* same for query parameters, whose names are case-sensitive *)
+Definition qvalues_of (k : bytes) (hs : list header) : list bytes :=
+  flat_map (fun hd => if bytes_eqb k (h_name hd) then h_vals hd else []) hs.
+Definition token (s : bytes) : Prop := forallb is_token_char s = true.
+
+(* ---------- raw or normal: histories ---------- *)
+(* actions that start a normal response *)
+Definition starts (o : op) : bool :=
+  match o with OWriteHeader _ | OWrite _ | OFlush | OCanSend => true | _ => false end.
+
+(* which came first: a stored raw response, or the start of a normal one? *)
+Fixpoint decided_raw (ops : list op) : bool :=
+  match ops with
+  | [] => false
+  | OSetRaw _ :: _ => true
+  | o :: r => if starts o then false else decided_raw r
+  end.
+Fixpoint last_raw (ops : list op) (acc : option resp) : option resp :=
+  match ops with
+  | [] => acc
+  | OSetRaw r :: rest => last_raw rest (Some r)
+  | _ :: rest => last_raw rest acc
+  end.
+(* the raw response that is to be sent, if any *)
+Definition raw_choice (ops : list op) : option resp :=
+  if decided_raw ops then last_raw ops None else None.
+
+(* the handler alone: every action applied straight to the inner writer *)
+Fixpoint direct (w : iw) (ops : list op) : option iw :=
+  match ops with
+  | [] => Some w
+  | o :: r =>
+    match o with
+    | OAdd k v => direct (iw_with_hdr (hm_add k v (iw_hdr w)) w) r
+    | OSet k v => direct (iw_with_hdr (hm_set k v (iw_hdr w)) w) r
+    | ODel k => direct (iw_with_hdr (hm_del k (iw_hdr w)) w) r
+    | OWriteHeader c => match iw_write_header c w with Some w' => direct w' r | None => None end
+    | OWrite b => direct (iw_write b w) r
+    | OFlush => direct (iw_flush w) r
+    | OSetRaw _ | OCanSend => direct w r
+    end
+  end.
+
+(* what the calls return: Write reports the full length whether or not the bytes went anywhere;
+   setRawResponse succeeds unless a normal response has started; canSendResponse refuses once a
+   raw response is stored *)
+Inductive mode := Undecided | Raw | Normal.
+Definition begin (m : mode) : mode := match m with Undecided => Normal | _ => m end.
+Fixpoint returns (m : mode) (ops : list op) : list Z :=
+  match ops with
+  | [] => []
+  | o :: r =>
+    match o with
+    | OSetRaw _ => match m with Normal => 0%Z :: returns Normal r | _ => 1%Z :: returns Raw r end
+    | OWrite b => Z.of_nat (length b) :: returns (begin m) r
+    | OCanSend => (match m with Raw => 0%Z | _ => 1%Z end) :: returns (begin m) r
+    | OWriteHeader _ | OFlush => returns (begin m) r
+    | _ => returns m r
+    end
+  end.
+
+(* ---------- raw request ---------- *)
+Section RequestSpec.
+  Variable compress : N -> bytes -> bytes.
+  (* the text an encoded query parameter contributes *)
+  Definition enc_text (e : encq) : bytes :=
+    if e_b64 e then b64url (payload_of compress (e_value e)) else payload_of compress (e_value e).
+  Definition enc_values_of (k : bytes) (es : list encq) : list bytes :=
+    flat_map (fun e => if bytes_eqb k (e_name e) then [enc_text e] else []) es.
+  (* the query string written in the URI itself *)
+  Definition uri_query (uri : bytes) : hmap :=
+    parse_query (match snd (split_first 63 uri) with Some q => q | None => [] end).
+End RequestSpec.
